@@ -236,6 +236,8 @@ func julianDayAsNumberLit(t time.Time) *sql.NumberLit {
 }
 
 func julianDay(t time.Time) float64 {
+	// SQLite's 'now' is UTC, whatever the time zone of this process is.
+	t = t.UTC()
 	year := t.Year()
 	month := int(t.Month())
 	day := t.Day()
